@@ -444,6 +444,28 @@ def rule_blob(ctx, model):
                         ctx.violate("C13.blob", where(m.relpath, "", n.lineno), n, "transaction mode of the connection is changed")
 
 
+DELETERS = ("deleteSession", "deleteAllSessions", "removePreKey", "removeSignedPreKey")
+
+
+def rule_above(ctx):
+    """all-or-nothing one level above the store: the record-removing store calls are made by python-axolotl inside its
+    own update sequences; yowsup code outside the store package must not call them - a 'delete, then rebuild' written
+    in the manager or a layer is two committed steps with a window (or a failing rebuild) in which the record is gone"""
+    repo = ctx.repo
+    n = 0
+    for m in sorted(repo.modules.values(), key=lambda m: m.relpath):
+        if "/demos/" in m.relpath or m.relpath.startswith("yowsup/axolotl/store/") or "/test_" in m.relpath:
+            continue
+        for c in list(m.classes.values()):
+            for name, fn in sorted(c.methods.items()):
+                n += 1
+                for x in ast.walk(fn):
+                    if isinstance(x, ast.Call) and isinstance(x.func, ast.Attribute) and x.func.attr in DELETERS:
+                        ctx.violate("C13.replace", where(m.relpath, "%s.%s" % (c.name, name), x.lineno), x,
+                                    "code above the store removes a record itself (%s) and relies on later calls to put a new one back: the removal is committed on its own, so a crash - or an exception in the rebuild - in between leaves the contact without that record" % x.func.attr)
+    ctx.hold("C13.replace", where("yowsup/axolotl/manager.py", "AxolotlManager", None), "record removal is left to the store's callers inside python-axolotl", "%d methods above the store examined: none removes sessions / prekeys itself" % n)
+
+
 def run(ctx):
     ctx.rule("C13.commit", "every write statement is followed by a commit on every normal path", floor=9)
     ctx.rule("C13.replace", "no commit between DELETE and INSERT replacing one record; or single INSERT OR REPLACE", floor=3)
@@ -458,5 +480,6 @@ def run(ctx):
     ctx.guarded("C13.schema", rule_schema, ctx, model)
     ctx.guarded("C13.bind", rule_bind, ctx, model)
     ctx.guarded("C13.blob", rule_blob, ctx, model)
+    ctx.guarded("C13.replace", rule_above, ctx)
     ctx.units["C13.tables"] = sorted(model.tables)
     ctx.units["C13.sql_statements"] = len(model.stmts)
